@@ -61,6 +61,32 @@ fn chain_case(ctx: &mut Ctx, rng: &mut Rng, env: &REnv, ts: &[RType; 3]) {
         accepted[a][b] = ok;
         ctx.count(if ok { "cover:checker-accepts" } else { "cover:checker-rejects" });
     }
+    // the same questions (and their converses) asked of one memo for as long as the answers are positive, the way a
+    // long-lived checker asks them: an acceptance obtained this way binds the decoder just the same
+    {
+        let cenv = to_candid_env(env, None);
+        let cts: Vec<_> = ts.iter().map(|t| to_candid_type(t, None)).collect();
+        let mut gamma = Gamma::new();
+        let order: Vec<(usize, usize)> = {
+            let mut o = vec![(1usize, 0usize), (2, 1), (2, 0), (0, 1), (1, 2), (0, 2)];
+            rng.shuffle(&mut o);
+            o
+        };
+        for (a, b) in order {
+            let r = catch(|| subtype_with_config(OptReport::Silence, &mut gamma, &cenv, &cts[a], &cts[b]).is_ok());
+            match r {
+                Ok(true) => {
+                    if a < b && !accepted[a][b] {
+                        accepted[a][b] = true;
+                        ctx.count("cover:checker-accepts-only-with-shared-memo");
+                    }
+                }
+                // a rejected query leaves pairs in the memo that were only proven under the rejected assumption; the
+                // property promises independence of earlier *successful* queries, so the memo is dropped here
+                _ => gamma = Gamma::new(),
+            }
+        }
+    }
     // values of the subtype, encoded at it by candid's own encoder
     let n_vals = 3;
     for (a, b) in pairs {
